@@ -614,12 +614,24 @@ def mon_C06(stream, case, obs):
         for p in pk:
             if p[0] >> 4 == 3 and ((p[0] >> 1) & 3) == 0:
                 n_wire_q0 += 1
+    # callbacks that belong to QoS 0 publishes: an id denotes the QoS 0 message from its publish() until its callback, or
+    # until a later QoS 1/2 publish is given the same id (ids are reused after the wrap-around)
     n_cb_q0 = 0
+    q0_live = set()
     for line, o in zip(case, obs):
+        t = line.split()
         evs, _ = parse_obs(o)
+        ret = [e for e in evs if e.startswith("ret:")]
+        if t[0] == "publish" and ret and len(ret[0].split(":")) > 2:
+            rc_, mid_ = ret[0].split(":")[1], int(ret[0].split(":")[2])
+            if t[1] == "0" and rc_ == "0":
+                q0_live.add(mid_)
+            elif t[1] != "0" and rc_ in ("0", "4"):
+                q0_live.discard(mid_)
         for e in evs:
-            if e.startswith("on_publish:") and int(e.split(":")[1]) in q0_mids:
+            if e.startswith("on_publish:") and int(e.split(":")[1]) in q0_live:
                 n_cb_q0 += 1
+                q0_live.discard(int(e.split(":")[1]))
     if n_cb_q0 > n_wire_q0:
         hits.append((len(case) - 1, "qos0-early", f"{n_cb_q0} QoS 0 publishes reported as sent, only {n_wire_q0} completely written"))
     return hits
